@@ -351,7 +351,7 @@ class SigmaCorrelationTimespan:
                     "y": 31556952,
                 }[self.unit]
             )
-        except (ValueError, KeyError):
+        except (ValueError, KeyError, TypeError, IndexError):
             raise sigma_exceptions.SigmaTimespanError(f"Timespan '{ self.spec }' is invalid.")
 
 
